@@ -265,3 +265,6 @@ for s, chns, f in groups2:
     if not np.array_equal(out2.reshape(nrows2, len(chns))[:, -1], data2[::12, -1]): reproduced('with several hundred windows the LF sync is not every 12th AP sync word')
 not_reproduced()
 """
+
+# level text addendum (cases added after the seeded-change rounds)
+LEVEL_TEXT = LEVEL_TEXT + ' Also: unequal shank populations; the replay checks the 1-LSB value clause on rail-to-rail data and repeats the run with 302 windows.'
